@@ -76,6 +76,19 @@ fn sums(rs: &[Red]) -> (u128, u128) {
     (rs.iter().map(|r| r.mem as u128).sum(), rs.iter().map(|r| r.steps as u128).sum())
 }
 
+/// the same transaction with the phase-2 validity flag set to false (the flag is outside the signed body);
+/// the budget rule applies whatever the flag says
+fn flag_false(tx: &[u8]) -> Option<Vec<u8>> {
+    let it = pv::cbor::parse(tx).ok()?;
+    if it.major == 4 && it.children.len() == 4 && it.children[2].major == 7 && tx[it.children[2].start] == 0xf5 {
+        let mut t = tx.to_vec();
+        t[it.children[2].start] = 0xf4;
+        Some(t)
+    } else {
+        None
+    }
+}
+
 fn era_group(e: Era) -> &'static str {
     match e {
         Era::Alonzo => "alonzo",
@@ -352,8 +365,18 @@ fn limits_mode(ctx: &mut Ctx, s: &Shape) {
         let b = ctx.rng.range(0, st.saturating_mul(2));
         lims.push((a, b));
     }
-    for l in lims {
-        judge(ctx, &r, l, "");
+    for l in &lims {
+        judge(ctx, &r, *l, "");
+    }
+    // the same limits against the transaction with the validity flag false
+    if let Some(t2) = flag_false(&s.tx) {
+        let r2 = Run { shape: s, tx: t2, reds: r.reds.clone(), as_map, mode: "limits-moved+valid=false" };
+        if usable(ctx, &r2) {
+            ctx.count("cases_with_validity_flag_false");
+            for l in &lims {
+                judge(ctx, &r2, *l, "");
+            }
+        }
     }
 }
 
@@ -437,10 +460,16 @@ fn budgets_mode(ctx: &mut Ctx, s: &Shape, exhaustive_targets: bool) {
                 r.steps = sp[i];
             }
             let t = set_redeemers(&s.tx, encode_redeemers(&reds, as_map));
-            let Some(t) = finalize(f, &s.views, &t) else {
+            let Some(mut t) = finalize(f, &s.views, &t) else {
                 ctx.count("no_integrity_hash");
                 continue;
             };
+            if ctx.rng.chance(1, 3) {
+                if let Some(t2) = flag_false(&t) {
+                    t = t2;
+                    ctx.count("cases_with_validity_flag_false");
+                }
+            }
             let r = Run { shape: s, tx: t, reds, as_map, mode: if dup { "budgets-rewritten+duplicate-pointer" } else if as_map == as_map0 { "budgets-rewritten" } else { "budgets-rewritten+encoding-converted" } };
             if dup {
                 ctx.count("duplicate_pointer_cases");
